@@ -1,0 +1,11 @@
+/* -*- Mode: C; c-basic-offset:4 ; indent-tabs-mode:nil ; -*- */
+/*
+ * Verification hook table (see abti_verif.h).  Empty unless -DABT_VERIF.
+ * This file is not part of the regular build (it is not listed in Makefile.mk).
+ */
+
+#ifdef ABT_VERIF
+#include "abti.h"
+
+ABTI_verif_hooks_t ABTI_verif_hooks = { NULL, NULL, NULL, NULL };
+#endif
